@@ -72,6 +72,15 @@ class ModuleInfo:
         self.is_pkg = is_pkg
         with open(path) as f:
             self.text = f.read()
+        # in-memory mutation (selftest only; never written to disk): FPY_MUT='{"file": "<suffix>", "old": "...", "new": "..."}'
+        mut = os.environ.get('FPY_MUT')
+        if mut:
+            import json as _json
+            m = _json.loads(mut)
+            if path.endswith(m['file']):
+                if m['old'] not in self.text:
+                    raise ExtractionError(f"mutant text not found in {path}: {m['old']!r}")
+                self.text = self.text.replace(m['old'], m['new'], 1)
         self.tree = ast.parse(self.text, filename=path)
         self.functions: dict[str, FunctionInfo] = {}
         self.classes: dict[str, ClassInfo] = {}
